@@ -1,17 +1,22 @@
 --------------------------- MODULE LoadBalance_Gen ---------------------------
 (* Model-checking / behaviour-generation wrapper of LoadBalance: the configurations and          *)
 (* discovery reports explored, and `out`, the JSON description of the step just taken.           *)
-EXTENDS LoadBalance, LoadBalance_Cfg, Json
+EXTENDS LoadBalanceRetry, LoadBalance_Cfg, Json
 
 VARIABLE out
 
-GenConfigs == {c \in [policy : Policies, static : StaticLists, disc : BOOLEAN] : Accepted(c)}
+(* att: maxAttempts of the pool's retry policy (1: no policy); up to one more than the longest list *)
+GenConfigs == {c \in [policy : Policies, static : StaticLists, disc : BOOLEAN, att : 1..4] : Accepted(c)}
 McConfigs == {c \in [policy : Policies, static : McStatic, disc : BOOLEAN] : Accepted(c)}
 McRRConfigs == {c \in McConfigs : c.policy = "roundRobin"}
 
-GInit == Init /\ out = ToJson([a |-> "init", cfg |-> cfg])
-GNext == Next /\ out' = ToJson(last')
-GSpec == GInit /\ [][GNext]_<<vars, out>>
+(* exhaustive runs of requests with several attempts *)
+(* (one server; two; three weighted; discovery only - with 3 attempts: as many failures as servers and more) *)
+McRetryConfigs == {c \in [policy : Policies, static : McStatic \cup {{S("a", 0)}}, disc : BOOLEAN, att : {3}] : Accepted(c)}
+
+GInit == RInit /\ out = ToJson([a |-> "init", cfg |-> cfg])
+GNext == Next /\ UNCHANGED att /\ out' = ToJson(last')
+GSpec == GInit /\ [][GNext]_<<rvars, out>>
 
 (* sequential behaviours (inputs for the replay on the real pool): requests one after the other,  *)
 (* some of them held between the load of the balancer and the choice while the list is replaced   *)
@@ -23,6 +28,15 @@ GAge == \E b \in AgeBits, d \in AgeD :
                Es == {E \in SUBSET Ids(lst[gen]) : Cardinality(E) = K0Mod(b, d, n)}
            IN  /\ last.a \in {"init", "rep"}        \* the balancer just created is the one with a history
                /\ n > 0 /\ Age(b, d, CHOOSE E \in Es : TRUE)
-GSeqNext == (HeldNext \/ GAge) /\ out' = ToJson(last')
-GSeqSpec == GInit /\ [][GSeqNext]_<<vars, out>>
+GHeldNext == ((HeldNext \/ GAge) /\ UNCHANGED att) /\ out' = ToJson(last')
+GHeldSpec == GInit /\ [][GHeldNext]_<<rvars, out>>
+(* ... and requests with several attempts (pools with a retry policy, failing backends), interleaved  *)
+(* with all of the above.                                                                           *)
+GSeqNext == (((HeldNext \/ GAge) /\ UNCHANGED att) \/ RetryNext) /\ out' = ToJson(last')
+GSeqSpec == GInit /\ [][GSeqNext]_<<rvars, out>>
+(* negative control: a pool whose retry refuses the servers that failed the request before and gives *)
+(* up when the balancer has no other to offer                                                        *)
+GiveUp == \E p \in Procs : pc[p] = "sent" /\ att[p] < MaxAtt /\ res[p] # NIL
+                            /\ Allowed(gen, key[p]) \subseteq {res[p]} /\ NoServerStep(p, key[p])
+GBadRetrySpec == GInit /\ [][(RSeqNext \/ GiveUp) /\ out' = ToJson(last')]_<<rvars, out>>
 =============================================================================
